@@ -612,6 +612,7 @@ tun_setip(const char *ip, const char *other_ip, int netbits)
 	DWORD len;
 #else
 	const char *display_ip;
+	struct in_addr net_check;
 #ifndef LINUX
 	struct in_addr netip;
 #endif
@@ -629,6 +630,13 @@ tun_setip(const char *ip, const char *other_ip, int netbits)
 		return 1;
 	}
 #ifndef WINDOWS32
+	/* Both addresses end up in a shell command line: accept strict
+	 * dotted-quad notation only (inet_addr() tolerates trailing text). */
+	if (inet_pton(AF_INET, ip, &net_check) != 1 ||
+	    inet_pton(AF_INET, other_ip, &net_check) != 1) {
+		fprintf(stderr, "Invalid IP address!\n");
+		return 1;
+	}
 # ifdef FREEBSD
 	display_ip = other_ip; /* FreeBSD wants other IP as second IP */
 # else
